@@ -65,3 +65,65 @@ fn probe_partial_write_callback_count_is_passed_on() {
         assert_eq!(got, n.div_ceil(2), "callback accepted {} of {n} bytes but the adapter reported {got}", n.div_ceil(2));
     }
 }
+
+// ---- extraction through the C entry point into caller-provided writers
+struct PSrc { data: Vec<u8>, pos: u64 }
+extern "C" fn p_rcb(buf: *mut u8, len: u32, ctx: *mut c_void, n: *mut u32) -> i32 {
+    let s = unsafe { &mut *ctx.cast::<PExtract>() };
+    let avail = s.src.data.len() as u64 - s.src.pos.min(s.src.data.len() as u64);
+    let k = (len as u64).min(avail).min(4093) as usize;
+    unsafe { std::ptr::copy_nonoverlapping(s.src.data.as_ptr().add(s.src.pos as usize), buf, k); *n = k as u32; }
+    s.src.pos += k as u64;
+    0
+}
+extern "C" fn p_scb(off: i64, whence: i32, ctx: *mut c_void, newpos: *mut u64) -> i32 {
+    let s = unsafe { &mut *ctx.cast::<PExtract>() };
+    let base = match whence { 0 => 0i64, 1 => s.src.pos as i64, _ => s.src.data.len() as i64 };
+    let p = base + off;
+    if p < 0 { return 1; }
+    s.src.pos = p as u64;
+    unsafe { *newpos = s.src.pos; }
+    0
+}
+struct PExtract { src: PSrc, got: Vec<(Vec<u8>, Vec<u8>)> }
+extern "C" fn p_out_wcb(b: *const u8, l: u32, ctx: *mut c_void, w: *mut u32) -> i32 {
+    let entry = unsafe { &mut *ctx.cast::<(Vec<u8>, Vec<u8>)>() };
+    let k = l.min(7);
+    entry.1.extend_from_slice(unsafe { std::slice::from_raw_parts(b, k as usize) });
+    unsafe { *w = k; }
+    0
+}
+extern "C" fn p_filecb(ctx: *mut c_void, name: *const u8, name_len: usize, fw: *mut FileWriter) -> i32 {
+    let s = unsafe { &mut *ctx.cast::<PExtract>() };
+    let n = unsafe { std::slice::from_raw_parts(name, name_len) }.to_vec();
+    s.got.push((n, Vec::new()));
+    let entry: *mut (Vec<u8>, Vec<u8>) = s.got.last_mut().unwrap();
+    unsafe { *fw = FileWriter { write_callback: Some(p_out_wcb), flush_callback: Some(p_fcb), context: entry.cast() }; }
+    0
+}
+
+/// C20: extraction through the C interface hands each file's exact bytes to the writer the caller supplied FOR THAT NAME: the name
+/// shown to the file callback is the whole name (non-ASCII names included), writers accept 7 bytes per call
+#[test]
+fn probe_c_extract_names_and_bytes() {
+    let files: Vec<(String, Vec<u8>)> = vec![
+        ("plain.txt".into(), b"0123456789abcdef".to_vec()), ("r\u{e9}sum\u{e9}_1".into(), vec![1u8; 100]), ("r\u{e9}sum\u{e9}_2".into(), vec![2u8; 50]),
+        ("\u{65e5}\u{672c}/\u{8a9e}".into(), vec![3u8; 9]), ("".into(), vec![4u8; 3]),
+    ];
+    let mut cfg = mla::config::ArchiveWriterConfig::new();
+    cfg.set_layers(mla::Layers::EMPTY);
+    let mut w = ArchiveWriter::from_config(Vec::new(), cfg).unwrap();
+    for (n, d) in &files { w.add_file(n, d.len() as u64, &d[..]).unwrap(); }
+    w.finalize().unwrap();
+    let bytes = w.into_raw();
+    let mut st = PExtract { src: PSrc { data: bytes, pos: 0 }, got: Vec::with_capacity(64) };
+    let mut rc: MLAConfigHandle = null_mut();
+    assert!(matches!(mla_reader_config_new(&raw mut rc), MLAStatus::Success));
+    let status = mla_roarchive_extract(&raw mut rc, Some(p_rcb), Some(p_scb), Some(p_filecb), (&raw mut st).cast());
+    assert!(matches!(status, MLAStatus::Success), "extraction through the C interface failed");
+    let mut got: Vec<(Vec<u8>, Vec<u8>)> = st.got.clone();
+    got.sort();
+    let mut want: Vec<(Vec<u8>, Vec<u8>)> = files.iter().map(|(n, d)| (n.as_bytes().to_vec(), d.clone())).collect();
+    want.sort();
+    assert!(got == want, "names / bytes handed to the caller's writers differ from the archive: got names {:?}", got.iter().map(|g| String::from_utf8_lossy(&g.0).to_string()).collect::<Vec<_>>());
+}
